@@ -550,6 +550,9 @@ class Recompiler:
         elif (isinstance(tp, (model.StructOrUnionOrEnum, model.BasePrimitiveType))):
             # a struct (not a struct pointer) as a function argument;
             # or, a complex (the same code works)
+            if isinstance(tp, model.StructOrUnion):
+                # fields not named by a list/dict initializer are zero
+                self._prnt('  memset((char *)&%s, 0, sizeof(%s));' % (tovar, tovar))
             self._prnt('  if (_cffi_to_c((char *)&%s, _cffi_type(%d), %s) < 0)'
                       % (tovar, self._gettypenum(tp), fromvar))
             self._prnt('    %s;' % errcode)
